@@ -2574,7 +2574,7 @@ pub const HOSTILE_SNIPPETS: &[&str] = &[
     "reduce range(300) as $i (.; [.]) | [.] | sort", "reduce range(300) as $i (.; {a: .}) | . * .", "reduce range(300) as $i (.; [.]) | contains(.)", "reduce range(300) as $i (.; [.]) | [leaf_paths]",
     "reduce range(300) as $i (.; [.]) | del(..)", "reduce range(300) as $i (.; [.]) | .. |= .", "reduce range(300) as $i (.; [.]) | getpath([range(300)|0])", "reduce range(300) as $i (.; [.]) | @yaml",
     "reduce range(300) as $i (.; [.]) | @props", "reduce range(300) as $i (.; [.]) | unique", "reduce range(300) as $i (.; [.]) | [.,.] | group_by(.)", "reduce range(300) as $i (.; [.]) | tojson | fromjson | length",
-    "(\"[\" * 1e5) | fromjson", "(\"[\" * 300 + \"]\" * 300) | fromjson | length", "(\"[\" * 1e5 + \"]\" * 1e5) | fromjson", "(\"{\\\"a\\\":\" * 1e5) | fromjson", "(\"[\" * 1e5) | try fromjson catch \"e\"",
+    "(\"[\" * 1e5) | fromjson", "(\"[\" * 300 + \"]\" * 300) | fromjson | length", "(\"[\" * 1e5 + \"]\" * 1e5) | fromjson", "(\"{\\\"a\\\":\" * 1e5) | fromjson", "(\"[\" * 1e5) | try fromjson catch \"e\"", "(\"[\" * 1e5) | tonumber", "(\"[\" * 1e5) | try tonumber catch \"e\"",
     "(\"-\" * 1e5 + \"1\") | tonumber", "(\"9\" * 400) | tonumber", "(\"1\" * 1e5) | tonumber", "\"1e1000\" | tonumber", "\"0x10\" | tonumber", "\"-\" | tonumber", "\" 1 \" | tonumber", "\"nan\" | tonumber", "\"1e\" | tonumber",
     "getpath([1e18])", "getpath([-1e18])", "getpath([nan])", "getpath([\"a\", 1e18, \"b\"])", "[range(1e5)] as $p | getpath($p)", "setpath([1e18]; 1)", "setpath([1e15]; 1)", "setpath([-1]; 1)", "setpath([nan]; 1)",
     "setpath([infinite]; 1)", "setpath([1e1000]; 1)", "setpath([0, 1e18]; 1)", "setpath([{\"start\": 1e18, \"end\": 1e19}]; [1])", "setpath([{\"start\": 0, \"end\": 1e18}]; [1])", "setpath([{\"start\": 1e15}]; [1])",
@@ -2638,9 +2638,9 @@ pub const HOSTILE_SNIPPETS: &[&str] = &[
     "def f: 1; f", "def f: def g: 2; g; f", "def f(g): g | g; 3 | f(. * 2)", "def f($a; $b): $a + $b; f(1; 2)", "def f(g; $a): [g, $a]; f(.; 1, 2)", "def f: f; 1", "def f(x): x; f(f(f(1)))", "def f: reduce .[]? as $x (0; . + 1); f", "def f($a): $a | f2; def f2: 1; 2", "def f(g): def h: g; h; f(1)",
     "def f: 1; def f: 2; f", "def f(a): 1; f", "def f: 1; f(2)", "def length: 1; length", "def f(g): g; f(error)", "def f: error; try f catch 1", "def f: .[]?; [f]", "def f: ., 1; [limit(3; f)]", "def r: if . < 3 then . + 1 | r else . end; 0 | r", "def r: if . < 1e4 then . + 1 | r else . end; 0 | r",
     "def fac: if . <= 1 then 1 else . * (. - 1 | fac) end; 10 | fac", "def fib: if . < 2 then . else (. - 1 | fib) + (. - 2 | fib) end; 15 | fib", "def d: [d]; 1", "def ack(m; n): 1; ack(1; 2)", "def f(g): [g]; f(f(f(.)))", "reduce empty as $x (0; 1)", "reduce error as $x (0; 1)",
-    "reduce (1, 2) as $x (empty; 1)", "reduce (1, 2) as $x (0; empty)", "reduce (1, 2) as $x (0; error)", "reduce (1, 2) as [$a, $b] (0; $a)", "reduce ([1, 2], 3) as [$a] (0; . + $a)", "reduce .[]? as {a: $a} (0; . + $a)", "reduce range(1e5) as $i (0; . + $i)", "reduce range(2e4) as $i ([]; . + [$i]) | length",
-    "reduce range(1e5) as $i (\"\"; . + \"a\") | length", "reduce range(1e4) as $i ({}; .[$i | tostring] = $i) | length", "reduce range(20) as $i (\"a\"; . + .) | length", "reduce range(16) as $i ([1]; . + .) | length", "foreach empty as $x (0; 1)", "foreach (1, 2) as $x (0; empty; .)", "foreach (1, 2) as $x (0; error)",
-    "foreach (1, 2) as $x (0; . + $x; error)", "foreach (1, 2) as $x (0; . + $x; empty)", "[foreach range(1e5) as $i (0; . + 1; select(. % 1e4 == 0))]", "foreach (1, 2) as [$a] (0; $a)", "foreach (1, 2) as $x (0, 1; . + $x)", "[limit(3; foreach range(infinite) as $i (0; . + 1))]",
+    "reduce (1, 2) as $x (empty; 1)", "reduce (1, 2) as $x (0; empty)", "reduce (1, 2) as $x (0; error)", "reduce (1, 2) as [$a, $b] (0; $a)", "reduce ([1, 2], 3) as [$a] (0; . + $a)", "reduce .[]? as {a: $a} (0; . + $a)", "reduce range(2e4) as $i (0; . + $i)", "reduce range(3000) as $i ([]; . + [$i]) | length",
+    "reduce range(2e4) as $i (\"\"; . + \"a\") | length", "reduce range(2000) as $i ({}; .[$i | tostring] = $i) | length", "reduce range(20) as $i (\"a\"; . + .) | length", "reduce range(16) as $i ([1]; . + .) | length", "foreach empty as $x (0; 1)", "foreach (1, 2) as $x (0; empty; .)", "foreach (1, 2) as $x (0; error)",
+    "foreach (1, 2) as $x (0; . + $x; error)", "foreach (1, 2) as $x (0; . + $x; empty)", "[foreach range(2e4) as $i (0; . + 1; select(. % 1e4 == 0))]", "foreach (1, 2) as [$a] (0; $a)", "foreach (1, 2) as $x (0, 1; . + $x)", 
     ". as [$a, [$b]] | [$a, $b]", ". as {a: {b: [$c]}} | $c", ". as {$a, b: $c} | [$a, $c]", ". as {\"a b\": $x} | $x", ". as {(\"a\", \"b\"): $x} | $x", ". as {$__loc__} | 1", ". as [$a] ?// {a: $a} ?// $a | $a", ". as [$a] ?// $a | error", "[.[]? as [$a] ?// $a | $a]", ". as [] | 1", ". as {} | 1",
     "1 as $x | 2 as $x | $x", "1 as $x | [$x, $x] as [$x, $y] | $x + $y", "$x", "$ENV as $e | $e | type", "$__loc__ as {file: $f, line: $l} | [$f, $l]", ". as $dot | [.[]? | . as $e | $dot | length]", "(1, 2) as $x | (3, 4) as $y | [$x, $y]", "empty as $x | 1", "error as $x | 1", "(1, error) as $x | $x",
     "{a: 1} | .a as $v | {$v}", "{\"a\": (1, 2), \"b\": (3, 4)}", "{(\"a\", \"b\"): 1}", "{(1): 2}", "{(null): 1}", "{(empty): 1}", "{a: empty}", "{a: error}", "{\"\\(1, 2)\": 3}", "{a: 1, a: 2}", "{a: 1} + {a: 2}", "{$__loc__}", "{@base64: 1}", "{\"a\": 1 | 2}", "{a: 1, b: (2, 3), c: {d: (4, 5)}}",
@@ -2680,7 +2680,51 @@ pub fn gen_hostile(u: &mut Src, doc: &J, cfg: &Cfg, seeds: &[String]) -> Prog {
     }
 }
 
+/// Does the text contain a number literal that is huge (>= 10 digits or |exponent| >= 9)?
+pub fn huge_number_in_text(text: &str) -> bool {
+    big_number_in_text(text, 9)
+}
+
+pub fn big_number_in_text(text: &str, min_exp: usize) -> bool {
+    let b = text.as_bytes();
+    let mut i = 0;
+    while i < b.len() {
+        if b[i].is_ascii_digit() && (i == 0 || !(b[i - 1].is_ascii_alphanumeric() || b[i - 1] == b'_')) {
+            let s = i;
+            while i < b.len() && (b[i].is_ascii_digit() || b[i] == b'.') {
+                i += 1;
+            }
+            let digits = b[s..i].iter().filter(|c| c.is_ascii_digit()).count();
+            let mut exp = 0usize;
+            if i < b.len() && (b[i] == b'e' || b[i] == b'E') {
+                let mut j = i + 1;
+                if j < b.len() && (b[j] == b'+' || b[j] == b'-') {
+                    j += 1;
+                }
+                let es = j;
+                while j < b.len() && b[j].is_ascii_digit() {
+                    j += 1;
+                }
+                exp = std::str::from_utf8(&b[es..j]).ok().and_then(|t| t.parse().ok()).unwrap_or(if j > es { 9999 } else { 0 });
+                i = j;
+            }
+            if digits >= 10 || exp >= min_exp {
+                return true;
+            }
+        } else {
+            i += 1;
+        }
+    }
+    false
+}
+
+/// Extreme operand somewhere in the text (huge number, nan, infinite, negative zero)?
+pub fn extreme_in_text(text: &str) -> bool {
+    big_number_in_text(text, 5) || text.contains("nan") || text.contains("infinite") || text.contains("-0")
+}
+
 fn raw_prog(text: String, extreme: bool, family: &'static str) -> Prog {
+    let extreme = extreme && extreme_in_text(&text);
     let nest = text_nesting(&text);
     Prog { ast: E::Raw(text.clone(), L_PIPE, "rawtext"), text, feats: vec![family.to_string()], nodes: 1, kinds: 1, extreme, nest, family }
 }
@@ -2705,7 +2749,9 @@ pub fn snippet_program(u: &mut Src, doc: &J, cfg: &Cfg) -> Prog {
         }
         _ => E::Path(Box::new(E::Identity), vec![Step::Iter, Step::Opt]).pipe_into(a),
     };
-    prog_of(e, true, "extreme")
+    let mut p = prog_of(e, true, "extreme");
+    p.extreme = extreme_in_text(&p.text);
+    p
 }
 
 impl E {
@@ -2724,60 +2770,63 @@ pub fn deep_program(u: &mut Src) -> Prog {
         5 => u.range(600, 2000),
         _ => u.range(2000, 5000),
     };
-    let forms: &[(&str, &str, &str)] = &[
-        ("(", ".", ")"),
-        ("[", ".", "]"),
-        ("{a:", "1", "}"),
-        ("{\"a\":[", ".", "]}"),
-        ("-", "1", ""),
-        ("try ", ".", ""),
-        ("", ".", "?"),
-        ("", ".", "[0]"),
-        ("", ".", ".a"),
-        ("", ".", "[]?"),
-        ("", ".", "|."),
-        ("", "1", "+1"),
-        ("", "1", ",1"),
-        ("", ".", " as $x|$x"),
-        ("if . then ", ".", " else . end"),
-        ("if ", ".", " then . else . end"),
-        ("\"\\(", "1", ")\""),
-        ("reduce . as $x (0;", ".", ")"),
-        ("foreach . as $x (", "0", ";.)"),
-        ("def f: ", ".", ";f"),
-        ("def f(g): g;f(", ".", ")"),
-        ("label $l|", ".", ""),
-        ("first(", ".", ")"),
-        ("[limit(1;", ".", ")]"),
-        ("map(", ".", ")"),
-        ("path(", ".", ")"),
-        ("select(", ".", ")"),
-        ("recurse(", ".[]?", ")"),
-        ("", ".", "//."),
-        ("", ".", " and ."),
-        ("", ".a", "=1|.a"),
-        ("", ".", "|=."),
-        (". as [", "$x", "]|$x"),
-        (". as {a:", "$x", "}|$x"),
-        ("", ".", " ?// $x"),
-        ("try (", ".", ") catch ."),
-        ("{(", "\"a\"", "):1}|keys[0]"),
-        ("[.[", "0", "]]"),
-        (".[", "0", ":]"),
-        ("@base64 \"\\(", ".", ")\""),
-        ("not|", "not", ""),
-        ("tojson|", "tojson", ""),
-        ("[", "", "]"),
-        ("((", "", "))"),
-        ("{", "", "}"),
-        ("(", "", ""),
-        ("", "", ")"),
-        ("[", "", ""),
-        ("\"\\(", "", ""),
-        ("#", "\n.", ""),
-        ("/", "", ""),
+    let forms: &[(&str, &str, &str, usize)] = &[
+        ("(", ".", ")", 5000),
+        ("[", ".", "]", 5000),
+        ("{a:", "1", "}", 5000),
+        ("{\"a\":[", ".", "]}", 5000),
+        ("-", "1", "", 5000),
+        ("try ", ".", "", 5000),
+        ("", ".", "?", 5000),
+        ("", ".", "[0]", 2000),
+        ("", ".", ".a", 2000),
+        ("", ".", "[]?", 2000),
+        ("", ".", "|.", 800),
+        ("", "1", "+1", 5000),
+        ("", "1", ",1", 5000),
+        ("", ".", " as $x|$x", 250),
+        ("if . then ", ".", " else . end", 5000),
+        ("if ", ".", " then . else . end", 5000),
+        ("\"\\(", "1", ")\"", 5000),
+        ("reduce . as $x (0;", ".", ")", 5000),
+        ("foreach . as $x (", "0", ";.)", 5000),
+        ("def f: ", ".", ";f", 5000),
+        ("def f(g): g;f(", ".", ")", 5000),
+        ("label $l|", ".", "", 5000),
+        ("first(", ".", ")", 5000),
+        ("[limit(1;", ".", ")]", 5000),
+        ("map(", ".", ")", 5000),
+        ("path(", ".", ")", 5000),
+        ("select(", ".", ")", 5000),
+        ("recurse(", ".[]?", ")", 5000),
+        ("", ".", "//.", 800),
+        ("", ".", " and .", 800),
+        ("", ".a", "=1|.a", 400),
+        ("", ".", "|=.", 400),
+        (". as [", "$x", "]|$x", 5000),
+        (". as {a:", "$x", "}|$x", 5000),
+        ("", ".", " ?// $x", 800),
+        ("try (", ".", ") catch .", 5000),
+        ("{(", "\"a\"", "):1}|keys[0]", 5000),
+        ("[.[", "0", "]]", 5000),
+        (".[", "0", ":]", 5000),
+        ("@base64 \"\\(", ".", ")\"", 5000),
+        ("not|", "not", "", 800),
+        ("tostring|", "tostring", "", 800),
+        ("[.]|", ".", "", 600),
+        ("", ".", "|[.]", 600),
+        ("[", "", "]", 5000),
+        ("((", "", "))", 5000),
+        ("{", "", "}", 5000),
+        ("(", "", "", 5000),
+        ("", "", ")", 5000),
+        ("[", "", "", 5000),
+        ("\"\\(", "", "", 5000),
+        ("#", "\n.", "", 5000),
+        ("/", "", "", 5000),
     ];
-    let (a, m, z) = *u.pick(forms);
+    let (a, m, z, cap) = *u.pick(forms);
+    let n = n.min(cap);
     let mut s = String::with_capacity((a.len() + z.len()) * n + m.len());
     for _ in 0..n {
         s.push_str(a);
@@ -2923,7 +2972,9 @@ pub fn text_hostile(u: &mut Src, doc: &J, cfg: &Cfg) -> Prog {
             }
         }
     }
-    let mut q = raw_prog(s.into_iter().collect(), p.extreme, "text");
-    q.extreme = true;
+    let t: String = s.into_iter().collect();
+    let ex = p.extreme || extreme_in_text(&t);
+    let mut q = raw_prog(t, true, "text");
+    q.extreme = ex;
     q
 }
